@@ -1093,8 +1093,26 @@ func c04ReplyFunnel(r *core.Run, rule, tn string, models map[string]*replyModel,
 	r.Check(guarded, rule, core.FuncName(funnel), "store-true-guarded-by-!flag", p.InstrPos(store),
 		"store of true is dominated by the false edge of the flag test (second reply is refused)", "the flag is set without first testing it: a second reply would be published")
 	pubs := invokes([]*ssa.Function{funnel}, "Conn", "Publish")
+	// typestate for the case where test and store live in a bool helper (`if !r.claimReply() { return }`):
+	// 1 = the flag was stored true in this activation of the funnel
+	var flowRes *core.FlowResult
+	if store != nil {
+		fl := &core.Flow{Fn: funnel, Entry: core.StateSet(0).Add(0), Tags: true, Inline: func(cal *ssa.Function) bool { return p.IsPrivateHelper(cal) && cal.Pkg == funnel.Pkg }}
+		fl.Transfer = func(in ssa.Instruction, st int) core.StateSet {
+			if in == ssa.Instruction(store) {
+				return core.StateSet(0).Add(1)
+			}
+			return core.StateSet(0).Add(st)
+		}
+		flowRes = fl.Run()
+	}
 	for _, pc := range pubs {
 		ok := store != nil && p.DominatesIn(funnel, store, pc)
+		if !ok && flowRes != nil {
+			if bs := flowRes.Before[pc]; !bs.Empty() && bs.Only(1) {
+				ok = true
+			}
+		}
 		r.Check(ok, rule, core.FuncName(funnel), "publish-after-store-true", p.InstrPos(pc),
 			"Conn.Publish dominated by flag test + store(true)", "Conn.Publish not dominated by the flag store: may publish twice")
 	}
